@@ -486,6 +486,10 @@ def binop(I, node, op, l, r):
             out.tags["deg"] = {}
         I.emit("corner_table", node, result=out, lits=(0.0, 1.0), repeat=n_cols, complete=bool(same))
         return out
+    if isinstance(op, ast.BitOr) and l.tag("pred") is not None and r.tag("pred") is not None and l.tag("pred")[1].term == r.tag("pred")[1].term \
+            and l.tag("pred")[1].term is not None:
+        out.tags["pred_union"] = (frozenset({l.tag("pred")[0], r.tag("pred")[0]}), l.tag("pred")[1])     # isfinite(x) | isposinf(x)
+        out.tags["boolarr"] = True
     if isinstance(op, ast.MatMult):
         out.shape = matmul_shape(I, node, l, r)
         for x, basis in ((l, r), (r, l)):
@@ -515,7 +519,7 @@ def binop(I, node, op, l, r):
         else:
             out.unit = None
         out.frame = frame_addsub(I, node, isinstance(op, ast.Add), l, r)
-        if isinstance(op, ast.Sub) and isinstance(out.frame, tuple):
+        if isinstance(op, ast.Sub) and (isinstance(out.frame, tuple) or l.tag("kind") == "ndarray"):
             out.tags["minus"] = r
     elif isinstance(op, (ast.Mult, ast.MatMult)):
         out.unit = umul(l.unit, r.unit, 1)
@@ -742,6 +746,8 @@ def attribute(I, e, b):
                        term=("constant", attr), fresh="FRESH", shape=S())
         return Val(tags={"ureg_attr": attr}, term=("ureg", attr))
     if attr in ("magnitude", "m"):
+        if b.tag("kind") == "pintq" and not b.tag("pint_converted") and not b.tag("physical_constant"):
+            I.emit("raw_magnitude", e, of=b)          # the number of a quantity in WHATEVER unit it happens to be expressed in
         return b.copy(term=mk_term("magnitude", b.term))
     if attr in ("units", "dtype", "flags"):
         return Val(shp=f.data | f.shp, ctrl=f.ctrl, term=mk_term(attr, b.term), tags={"dtype_of": True} if attr == "dtype" else {})
@@ -832,9 +838,11 @@ def subscript(I, e, b):
         if idx.tag("hull_attr") == "simplices":
             out.tags["simplices_of"] = b
     for k in ("deg", "litfactor", "kind", "bary", "simplex_rows", "offset_id", "hull_pts", "rowsof", "maybe_zero_rows", "unit_cube",
-              "simplices_of", "poly", "floating", "suffix_slice", "point", "rounded", "pow2_range", "desc_range"):
+              "simplices_of", "poly", "floating", "suffix_slice", "point", "rounded", "pow2_range", "desc_range", "finite"):
         if b.tag(k) is not None:
             out.tags[k] = b.tag(k)
+    if out.tags.get("finite") is False:
+        out.tags.pop("finite")         # a selection of a not-all-finite array may well be all finite
     if b.tag("truncated_basis") or (b.tag("basis_factor") and any(isinstance(x, ast.Slice) and (x.upper is not None or x.lower is not None)
                                                                    for x in _index_elems(e))):
         out.tags["truncated_basis"] = True        # a proper subset of the orthogonal directions
@@ -1125,6 +1133,14 @@ def _isinst1(v, t):
         if v.tag("ndim") is not None:
             return False if v.tag("ndim") >= 1 else None
         return None
+    if t == "int":
+        if v.tag("np_scalar"):
+            return False            # numpy integers (np.int64 from np.arange / rng.integers) are not instances of `int`
+        if v.tag("kind") == "int" and v.tag("np_scalar") is False:
+            return True
+        if v.tag("kind") in ("ndarray", "tuple", "list", "dict", "rng") or v.tag("isstr") or v.items is not None:
+            return False
+        return None
     if t == "str":
         if v.tag("isstr"):
             return True
@@ -1291,6 +1307,11 @@ def call_builtin(I, e, name, args, kws):
             out = mk(args, term=mk_term(name, *[a.term for a in args]))
             us = [a.unit for a in args]
             out.unit = us[0] if all(u == us[0] for u in us) else None
+            dimd = [a for a in args if isinstance(a.unit, dict) and a.unit]
+            lits = [a for a in args if a.known and isinstance(a.const, (int, float)) and not isinstance(a.const, bool) and a.const != 0]
+            if dimd and lits:
+                # max(total, 1e-12): a floor / ceiling expressed as a bare number on a quantity that carries a unit
+                I.type_error(e, "QTY", f"{name}() of [{ustr(dimd[0].unit)}] and the dimensionless literal {lits[0].const}", sub="literal")
             if all(a.known and _is_lit(a) for a in args):
                 out.const = (min if name == "min" else max)(a.const for a in args)
             if all(a.tag("kind") == "int" or (a.known and isinstance(a.const, int)) for a in args):
@@ -1323,6 +1344,10 @@ def call_builtin(I, e, name, args, kws):
         out.data = E
         return out
     if name == "getattr":
+        if len(args) >= 2 and args[1].known and args[1].const in ("magnitude", "m") and args[0].tag("kind") == "pintq":
+            if not args[0].tag("pint_converted"):
+                I.emit("raw_magnitude", e, of=args[0])
+            return args[0].copy(term=mk_term("magnitude", args[0].term))
         if len(args) >= 2 and args[1].known and isinstance(args[1].const, str) and args[0].tag("kind") == "self" and isinstance(e, ast.Call):
             fake = ast.Attribute(value=e.args[0], attr=args[1].const, ctx=ast.Load())
             ast.copy_location(fake, e)
@@ -1461,8 +1486,13 @@ def call_method(I, e, base, attr, args, kws):
                 out.items = its
                 return out
             return mk([base])
-    if kind == "str" or (base.known and isinstance(base.const, str)):
-        return mk([base] + args, tags={"kind": "str"})
+    if kind == "str" or (base.known and isinstance(base.const, str)) or (attr in ("lower", "upper", "casefold", "swapcase", "title", "capitalize")
+                                                                         and not args and base.tag("kind") not in ("ndarray",)):
+        out = mk([base] + args, tags={"kind": "str"})
+        if attr in ("lower", "upper", "casefold", "swapcase", "title", "capitalize"):
+            # case folding is not injective ('M' mega / 'm' milli, 'P' peta / 'p' pico): what follows depends on the text only through it
+            out = X.lossy(I, e, out, base, "casefold")
+        return out
     # --- cvxpy objects
     if base.refs and any(heap[o].kind == "cvxproblem" for o in base.refs if o in heap) and attr in (
             "solve", "is_dcp", "is_dqcp", "is_dpp"):
